@@ -590,8 +590,21 @@ func (c *Corpus) addKeyID(mm *mutationMap) error {
 }
 
 func (c *Corpus) addBlob(ctx context.Context, br blob.Ref, mm *mutationMap) error {
-	if _, dup := c.blobs[br]; dup {
-		return nil
+	_, dup := c.blobs[br]
+	if dup {
+		// The only blobs that legitimately get here twice are delete
+		// claims that were first received before their target was
+		// indexed: back then only their meta row was merged (see
+		// Index.populateDeleteClaim). Merge the rest now, unless the
+		// deletion is already known.
+		if len(mm.deletes) == 0 {
+			return nil
+		}
+		for _, cl := range mm.deletes {
+			if c.hasDeletion(cl) {
+				return nil
+			}
+		}
 	}
 	c.gen++
 	// make sure keySignerKeyID is done first before the actual mutations, even
@@ -603,6 +616,10 @@ func (c *Corpus) addBlob(ctx context.Context, br blob.Ref, mm *mutationMap) erro
 		kt := typeOfKey(k)
 		if kt == keySignerKeyID.name {
 			// because we already took care of it in addKeyID
+			continue
+		}
+		if dup && kt == "meta" {
+			// already merged the first time
 			continue
 		}
 		if !slurpedKeyType[kt] {
@@ -618,6 +635,20 @@ func (c *Corpus) addBlob(ctx context.Context, br blob.Ref, mm *mutationMap) erro
 		}
 	}
 	return nil
+}
+
+// hasDeletion reports whether the corpus deletes already contain the
+// deletion made by deleteClaim.
+func (c *Corpus) hasDeletion(deleteClaim schema.Claim) bool {
+	deleter := deleteClaim.Blob()
+	when, err := deleter.ClaimDate()
+	if err != nil {
+		return false
+	}
+	return slices.Contains(c.deletes[deleteClaim.Target()], deletion{
+		deleter: deleter.BlobRef(),
+		when:    when,
+	})
 }
 
 // updateDeletes updates the corpus deletes with the delete claim deleteClaim.
